@@ -1,0 +1,17 @@
+//go:build verif
+
+package datamatrix
+
+// Re-exports of the unexported pure-barcode steps of DataMatrixReader for the verification harness
+// (/verif, property C06, work package detrest).  Nothing here changes behaviour; the file is compiled
+// only with -tags verif.
+
+import "github.com/makiuchi-d/gozxing"
+
+func VerifExtractPureBits(image *gozxing.BitMatrix) (*gozxing.BitMatrix, error) {
+	return extractPureBits(image)
+}
+
+func VerifModuleSize(leftTopBlack []int, image *gozxing.BitMatrix) (int, error) {
+	return moduleSize(leftTopBlack, image)
+}
